@@ -204,8 +204,12 @@ axioms on the numbers).  A lower end is PROPER when it satisfies `p` or is `−i
 
 class BCfg (α : Type) where
   track : Bool
+  /-- an additional predicate on ranges carried along with properness (e.g. `lower ≤ upper`); default: none -/
+  exB : Bounds α → Prop := fun _ => True
+  /-- … and the corresponding predicate on declared types -/
+  exT : VarType α → Prop := fun _ => True
 
-instance (priority := low) defaultBCfg : BCfg α := ⟨false⟩
+instance (priority := low) defaultBCfg : BCfg α := { track := false }
 
 def LOK (p : α → Bool) (a : α) : Prop := p a = true ∨ Arith.eq a negInf = true
 def UOK (p : α → Bool) (a : α) : Prop := p a = true ∨ Arith.eq a posInf = true
@@ -238,11 +242,25 @@ structure BAx (p : α → Bool) : Prop where
     UOK p (Arith.fmax (Arith.neg b.lower) b.upper)
   le00 : Arith.le (zero : α) zero = true
 
+/-- proper and satisfying the additional predicate of the configuration. -/
+def BPx [BCfg α] (p : α → Bool) (b : Bounds α) : Prop := BP p b ∧ BCfg.exB b
+def TPx [BCfg α] (p : α → Bool) (ty : VarType α) : Prop := TP p ty ∧ BCfg.exT ty
+
+/-- what the additional predicate has to satisfy: it holds for the range of a good declared type, it is kept by
+the interval evaluation `boundsOf` (over a bounds map all of whose entries are good), and the three kinds of
+auxiliary type (`Boolean`, `NonNegativeReal(0, max(−lo, hi))`, `Real(lo, hi)`) built from a good range are good. -/
+structure ExAx [BCfg α] (p : α → Bool) : Prop where
+  ofTy : ∀ ty : VarType α, TP p ty → BCfg.exT ty → BCfg.exB (Bounds.ofVarType ty)
+  boundsOf : ∀ bm : BoundsMap α, (∀ x, BPx p (varBounds bm x)) → ∀ e, allLits p e = true → BCfg.exB (boundsOf bm e)
+  bool : BCfg.exT (VarType.bool : VarType α)
+  absT : ∀ b : Bounds α, BP p b → BCfg.exB b → BCfg.exT (.nnreal zero (fmax (Arith.neg b.lower) b.upper))
+  realT : ∀ b : Bounds α, BCfg.exB b → BCfg.exT (.real b.lower b.upper)
+
 def BOK [BCfg α] (p : α → Bool) (s : St α) : Prop :=
-  BCfg.track α = true → (∀ x, BP p (varBounds s.bounds x)) ∧ (∀ v ∈ s.domain, TP p v.ty)
+  BCfg.track α = true → (∀ x, BPx p (varBounds s.bounds x)) ∧ (∀ v ∈ s.domain, TPx p v.ty)
 
 /-- the arithmetic axioms are needed only when the tracking is on. -/
-def BTrack [BCfg α] (p : α → Bool) : Prop := BCfg.track α = true → BAx p
+def BTrack [BCfg α] (p : α → Bool) : Prop := BCfg.track α = true → BAx p ∧ ExAx p
 
 /-- the invariant of the linearizer state. -/
 def Inv [BCfg α] (N : String → Prop) (p : α → Bool) (s : St α) : Prop := StOK N p s ∧ BOK p s
@@ -360,7 +378,7 @@ theorem Inv.of_eq {s s' : St α} (hd : s'.domain = s.domain) (hb : s'.bounds = s
   · intro ht; rw [hd, hb]; exact h.2 ht
 
 theorem declareVariable_sp (hp : Closed p) {v : String} (hv : isAux v) {ty : VarType α}
-    (hty : BCfg.track α = true → TP p ty) (s : St α) :
+    (hty : BCfg.track α = true → TPx p ty ∧ BCfg.exB (Bounds.ofVarType ty)) (s : St α) :
     SpAt (Rel N p) (Inv N p) s (declareVariable v ty) (fun _ => True) := by
   unfold declareVariable
   apply SpAt.get_bind
@@ -406,10 +424,10 @@ theorem declareVariable_sp (hp : Closed p) {v : String} (hv : isAux v) {ty : Var
           split
           · rename_i hany
             rw [lookupB_replace_self _ _ _ hany]
-            exact BP_ofVarType hp (hty ht)
+            exact ⟨BP_ofVarType hp (hty ht).1.1, (hty ht).2⟩
           · rename_i hany
             rw [lookupB_append_self _ _ _ (Bool.eq_false_iff.mpr hany)]
-            exact BP_ofVarType hp (hty ht)
+            exact ⟨BP_ofVarType hp (hty ht).1.1, (hty ht).2⟩
         · unfold varBounds
           split
           · rw [lookupB_replace_ne _ _ _ _ hx]; exact hb x
@@ -420,7 +438,7 @@ theorem declareVariable_sp (hp : Closed p) {v : String} (hv : isAux v) {ty : Var
         · exact hd d h
         · simp only [List.mem_singleton] at h
           subst h
-          exact hty ht
+          exact (hty ht).1
 
 theorem addConstraint_sp {c : Constraint α} (hc : QOK N p c) (s : St α) :
     SpAt (Rel N p) (Inv N p) s (addConstraint c) (fun _ => True) := by
@@ -570,7 +588,13 @@ end boundsOf
 section auxTypes
 variable [BCfg α] {N : String → Prop} {p : α → Bool}
 
-theorem tp_bool : BCfg.track α = true → TP p (VarType.bool : VarType α) := fun _ => trivial
+theorem tp_bool (hB : BTrack p) : BCfg.track α = true →
+    TPx p (VarType.bool : VarType α) ∧ BCfg.exB (Bounds.ofVarType (VarType.bool : VarType α)) :=
+  fun ht => ⟨⟨trivial, (hB ht).2.bool⟩, (hB ht).2.ofTy _ trivial (hB ht).2.bool⟩
+
+/-- the ranges of the bounds map without the additional predicate. -/
+theorem Inv.bp {s : St α} (hI : Inv N p s) (ht : BCfg.track α = true) : ∀ x, BP p (varBounds s.bounds x) :=
+  fun x => ((hI.2 ht).1 x).1
 
 theorem allLitsL_selectFlagged : ∀ (es : List (Exp α)) (fs : List Bool), allLitsL p es = true →
     allLitsL p (selectFlagged es fs) = true
@@ -586,34 +610,53 @@ theorem tp_abs (hp : Closed p) (hB : BTrack p) {s : St α} (hI : Inv N p s) {e :
     (he : allLits p e = true) (h1 : ¬ Arith.ge (boundsOf s.bounds e).lower zero = true)
     (h2 : ¬ Arith.le (boundsOf s.bounds e).upper zero = true) :
     BCfg.track α = true →
-      TP p (.nnreal zero (fmax (Arith.neg (boundsOf s.bounds e).lower) (boundsOf s.bounds e).upper)) := by
+      TPx p (.nnreal zero (fmax (Arith.neg (boundsOf s.bounds e).lower) (boundsOf s.bounds e).upper)) ∧
+      BCfg.exB (Bounds.ofVarType
+        (.nnreal zero (fmax (Arith.neg (boundsOf s.bounds e).lower) (boundsOf s.bounds e).upper))) := by
   intro ht
-  have hb := boundsOf_BP hp (hB ht) s.bounds (hI.2 ht).1 e he
-  exact ⟨hp.ofInt 0, (hB ht).le00, (hB ht).absHi _ hb (by simpa using h1) (by simpa using h2)⟩
+  have hb := boundsOf_BP hp (hB ht).1 s.bounds (hI.bp ht) e he
+  have hx := (hB ht).2.boundsOf s.bounds (hI.2 ht).1 e he
+  have htp : TP p (.nnreal zero (fmax (Arith.neg (boundsOf s.bounds e).lower) (boundsOf s.bounds e).upper)) :=
+    ⟨hp.ofInt 0, (hB ht).1.le00, (hB ht).1.absHi _ hb (by simpa using h1) (by simpa using h2)⟩
+  have hxt := (hB ht).2.absT _ hb hx
+  exact ⟨⟨htp, hxt⟩, (hB ht).2.ofTy _ htp hxt⟩
 
 /-- the type of `$min_k`. -/
 theorem tp_min (hp : Closed p) (hB : BTrack p) {s : St α} (hI : Inv N p s) {es : List (Exp α)}
     (he : allLitsL p es = true) (fs : List Bool) :
     BCfg.track α = true →
-      TP p (.real (boundsOf s.bounds (.min (selectFlagged es fs))).lower
-        (boundsOf s.bounds (.min (selectFlagged es fs))).upper) := by
+      TPx p (.real (boundsOf s.bounds (.min (selectFlagged es fs))).lower
+        (boundsOf s.bounds (.min (selectFlagged es fs))).upper) ∧
+      BCfg.exB (Bounds.ofVarType (.real (boundsOf s.bounds (.min (selectFlagged es fs))).lower
+        (boundsOf s.bounds (.min (selectFlagged es fs))).upper)) := by
   intro ht
-  exact boundsOf_BP hp (hB ht) s.bounds (hI.2 ht).1 _ (by simp only [allLits]; exact allLitsL_selectFlagged es fs he)
+  have hl : allLits p (.min (selectFlagged es fs)) = true := by
+    simp only [allLits]; exact allLitsL_selectFlagged es fs he
+  have htp := boundsOf_BP hp (hB ht).1 s.bounds (hI.bp ht) _ hl
+  have hxt := (hB ht).2.realT _ ((hB ht).2.boundsOf s.bounds (hI.2 ht).1 _ hl)
+  exact ⟨⟨htp, hxt⟩, (hB ht).2.ofTy _ htp hxt⟩
 
 /-- the type of `$max_k`. -/
 theorem tp_max (hp : Closed p) (hB : BTrack p) {s : St α} (hI : Inv N p s) {es : List (Exp α)}
     (he : allLitsL p es = true) (fs : List Bool) :
     BCfg.track α = true →
-      TP p (.real (boundsOf s.bounds (.max (selectFlagged es fs))).lower
-        (boundsOf s.bounds (.max (selectFlagged es fs))).upper) := by
+      TPx p (.real (boundsOf s.bounds (.max (selectFlagged es fs))).lower
+        (boundsOf s.bounds (.max (selectFlagged es fs))).upper) ∧
+      BCfg.exB (Bounds.ofVarType (.real (boundsOf s.bounds (.max (selectFlagged es fs))).lower
+        (boundsOf s.bounds (.max (selectFlagged es fs))).upper)) := by
   intro ht
-  exact boundsOf_BP hp (hB ht) s.bounds (hI.2 ht).1 _ (by simp only [allLits]; exact allLitsL_selectFlagged es fs he)
+  have hl : allLits p (.max (selectFlagged es fs)) = true := by
+    simp only [allLits]; exact allLitsL_selectFlagged es fs he
+  have htp := boundsOf_BP hp (hB ht).1 s.bounds (hI.bp ht) _ hl
+  have hxt := (hB ht).2.realT _ ((hB ht).2.boundsOf s.bounds (hI.2 ht).1 _ hl)
+  exact ⟨⟨htp, hxt⟩, (hB ht).2.ofTy _ htp hxt⟩
 
 end auxTypes
 
 /-! ### `reify_logic_variable` -/
 
-theorem reify_sp [BCfg α] {N : String → Prop} {p : α → Bool} (hN : N "") (hp : Closed p) {v : String} (hv : isAux v)
+theorem reify_sp [BCfg α] {N : String → Prop} {p : α → Bool} (hN : N "") (hp : Closed p) (hB : BTrack p)
+    {v : String} (hv : isAux v)
     {cs : List (Cmp × Exp α)} (hcs : ∀ q ∈ cs, allLits p q.2 = true) (s : St α) :
     SpAt (Rel N p) (Inv N p) s (reify v cs) (CtxOK p) := by
   unfold reify
@@ -625,7 +668,7 @@ theorem reify_sp [BCfg α] {N : String → Prop} {p : α → Bool} (hN : N "") (
     intro _ _ s2
     exact SpAt.pure (rel_isPre _ _) trivial
   · intro _ _ s1
-    refine SpAt.bind (rel_isPre _ _) (declareVariable_sp (ty := .bool) hp hv tp_bool s1) ?_
+    refine SpAt.bind (rel_isPre _ _) (declareVariable_sp (ty := .bool) hp hv (tp_bool hB) s1) ?_
     intro _ _ s2
     exact SpAt.pure (rel_isPre _ _) (CtxOK.fromVar hp _ (hp.ofInt 1))
 
@@ -733,14 +776,14 @@ macro "sp_call" : tactic => `(tactic| first
     | apply_sp_hyp
     | (apply declareVariable_sp (by assumption))
     | (apply addConstraint_sp; apply mkC_ok (by assumption))
-    | (apply reify_sp (by assumption) (by assumption))
+    | (apply reify_sp (by assumption) (by assumption) (by assumption))
     | (refine SpAt.forIn (rel_isPre _ _) _ _ _ ?_ _; intro _ _ _ _))
 
 /-- a goal that is not a program: auxiliary name, literal / context side condition, or properness of a type. -/
 macro "sp_leaf" : tactic => `(tactic| first
     | sp_aux
     | sp_side
-    | exact tp_bool
+    | exact tp_bool (by assumption)
     | exact tp_abs (by assumption) (by assumption) (by assumption) (by assumption) (by assumption) (by assumption)
     | exact tp_min (by assumption) (by assumption) (by assumption) (by assumption) _
     | exact tp_max (by assumption) (by assumption) (by assumption) (by assumption) _)
